@@ -1,7 +1,7 @@
 (* C11 -- uses_storage_type never under-reports a storage the stream touches
    Property theorems only: each proof is one application of a lemma proved in Proofs/, followed by Print Assumptions. *)
 From Coq Require Import ZArith List Bool.
-From CS Require SchedProofs UsesProofs ExecBudget RevConv RevBridge4 DiskUses.
+From CS Require SchedProofs UsesProofs ExecBudget RevConv RevBridge4 DiskUses HRevUses.
 From CS Require Import Actions NAdvance Multistage Exec Sched RunFacts Projections BasicInv MultistageRun AllocTotal TLBridge MixBridge.
 Import ListNotations.
 Open Scope Z_scope.
@@ -61,7 +61,22 @@ Proof. exact (@DiskUses.disk_touch_uses). Qed.
 Print Assumptions C11_disk_touch_uses.
 End M_C11_disk_touch_uses.
 
-(* PARTIAL (HRevolve; DiskRevolve / PeriodicDiskRevolve with snapshots_in_ram = 0): class-independent fact about the reference executor -- on any error-free monitored run the store sizes stay within the declared budgets and an action touching RAM / DISK is accepted only if that budget is positive; for HRevolve error-freeness is not proved (D8), so touched => uses rests on correspondence + oracle *)
+(* HRevolve, snapshots_in_ram >= 1 and snapshots_on_disk >= 0, every history: a touched storage is reported as used -- with a disk slot RAM and DISK are both reported; without one the op list is a memory-only block (the infinite column of optp[1]) and the converter never names DISK *)
+Module M_C11_hrev_touch_uses.
+Import HRevUses.
+Theorem C11_hrev_touch_uses :
+  forall (N ram disk uf ub0 wd rd : Z) (p : Exec.xparams) (ops : list Sched.op) 
+           (o0 : Sched.obs) (m : Sched.mon) (ls : list Sched.line),
+         1 <= N ->
+         1 <= ram ->
+         0 <= disk ->
+         Sched.run_case (Sched.PRev RevConv.KHRevolve N ram disk uf ub0 wd rd) p ops = Actions.Ok (o0, m, ls) ->
+         Forall ExecBudget.touch_uses_line ls.
+Proof. exact (@HRevUses.hrev_touch_uses). Qed.
+Print Assumptions C11_hrev_touch_uses.
+End M_C11_hrev_touch_uses.
+
+(* PARTIAL (the three disk classes with snapshots_in_ram = 0, accepted for max_n = 1 only): class-independent fact about the reference executor -- on any error-free monitored run the store sizes stay within the declared budgets and an action touching RAM / DISK is accepted only if that budget is positive; error-freeness of those runs is not proved, so touched => uses rests on correspondence + oracle *)
 Module M_C11_touch_needs_budget_partial.
 Import ExecBudget.
 Theorem C11_touch_needs_budget_partial :
